@@ -114,9 +114,23 @@ fn point(p: u32, n: usize) -> Vec<Sym> {
 
 /// reference result of a text under a table at a point (schedule independent)
 fn expected(text: &str, t: &Table, p: u32) -> Nf {
+    thread_local! {
+        static CACHE: std::cell::RefCell<std::collections::HashMap<(usize, usize, usize, u32), Nf>> = std::cell::RefCell::new(std::collections::HashMap::new());
+    }
+    // (texts are static or interned; the table is identified by its address and size)
+    let key = (text.as_ptr() as usize, text.len(), t as *const Table as usize + t.ops.len(), p);
+    if text.len() > 200 {
+        if let Some(n) = CACHE.with(|c| c.borrow().get(&key).cloned()) {
+            return n;
+        }
+    }
     let SpecResult::Ok(tree) = spec::read(text, t, LitKind::Sym) else { panic!("harness: bad text") };
     let vars = tree.vars();
-    nf_ac(&tree.eval_sym(&vars, t).subst(&point(p, vars.len())), t)
+    let n = nf_ac(&tree.eval_sym(&vars, t).subst(&point(p, vars.len())), t);
+    if text.len() > 200 {
+        CACHE.with(|c| c.borrow_mut().insert(key, n.clone()));
+    }
+    n
 }
 
 const TEXTS_W: [&str; 3] = ["2*3*x+y+y", "2*3*x+y+y*x", "1+2+y*x*y-x"];
@@ -309,6 +323,11 @@ pub struct Body {
     pub threads: Vec<Vec<Job>>,
 }
 
+/// ((...((x+1)+1)...)+1) with `depth` nested groups: a deep expression nests one level per group
+fn nested_text(depth: usize) -> &'static str {
+    intern(&format!("{}x{}", "(".repeat(depth), "+1)".repeat(depth)))
+}
+
 pub fn bodies() -> Vec<Body> {
     use Job::*;
     vec![
@@ -320,6 +339,7 @@ pub fn bodies() -> Vec<Body> {
         Body { name: "B2-six-literal-matchers", shared_text: TEXTS[3], shared_deep: false, threads: vec![vec![Matchers(0)], vec![Matchers(3)]] },
         Body { name: "B3-convert-clone-while-evaluating", shared_text: TEXTS[1], shared_deep: false, threads: vec![vec![CloneConvert(0)], vec![EvalShared(1), EvalShared(2)]] },
         Body { name: "B4-uncompiled-shared-evalvec-and-compiled-clones", shared_text: TEXTS[3], shared_deep: false, threads: vec![vec![EvalVecW(0), CompileCloneW(1)], vec![CompileCloneW(2), EvalVecW(3)]] },
+        Body { name: "B5-deeply-nested-shared-deep-expression", shared_text: nested_text(270), shared_deep: true, threads: vec![vec![EvalShared(0)], vec![EvalShared(1)]] },
         Body { name: "B1-three-threads", shared_text: TEXTS[2], shared_deep: false, threads: vec![vec![EvalShared(0)], vec![EvalShared(1)], vec![ParseEval(2, 1, false, 2)]] },
         Body { name: "B3-three-threads", shared_text: TEXTS[0], shared_deep: true, threads: vec![vec![CloneConvert(0)], vec![EvalShared(1)], vec![ParseEval(0, 1, true, 2)]] },
     ]
@@ -337,10 +357,32 @@ fn make_body(b: Body, col: Arc<Mutex<Collected>>) -> impl Fn() + Send + Sync + '
     move || {
         set_tables();
         set_yield(true);
-        let shared = if b.shared_deep { Shared::D(Arc::new(DeepA::parse(b.shared_text).expect("shared parses"))) } else { Shared::F(Arc::new(FlatA::parse(b.shared_text).expect("shared parses"))) };
+        let big_shared = b.name.starts_with("B5");
+        // (a parse failure of the shared text is a deviation like any other: it must not depend
+        // on what ran before)
+        let parsed: Result<Shared, String> = if big_shared {
+            // parsed once per process (the text has 270 nesting levels); every execution shares it
+            static DEEP: std::sync::OnceLock<Result<Arc<DeepA<'static>>, String>> = std::sync::OnceLock::new();
+            DEEP.get_or_init(|| DeepA::parse(b.shared_text).map(Arc::new).map_err(|e| e.msg().to_string())).clone().map(Shared::D)
+        } else if b.shared_deep {
+            DeepA::parse(b.shared_text).map(|e| Shared::D(Arc::new(e))).map_err(|e| e.msg().to_string())
+        } else {
+            FlatA::parse(b.shared_text).map(|e| Shared::F(Arc::new(e))).map_err(|e| e.msg().to_string())
+        };
+        let shared = match parsed {
+            Ok(s) => s,
+            Err(m) => {
+                set_yield(false);
+                let mut c = col.lock().unwrap();
+                c.bad.push((format!("{}:shared-expression-rejected", b.name), format!("the shared text of body {} was rejected in this execution: {m}", b.name)));
+                c.executions += 1;
+                return;
+            }
+        };
         let sharedw: Arc<Vec<FlatA>> = Arc::new(TEXTS_W.iter().map(|t| FlatA::parse_wo_compile(t).expect("shared uncompiled parses")).collect());
         let dump0 = match &shared {
             Shared::F(e) => format!("{e:?}|{sharedw:?}"),
+            Shared::D(_) if big_shared => String::new(),
             Shared::D(e) => format!("{e:?}|{sharedw:?}"),
         };
         let log: Arc<Mutex<Vec<(usize, String)>>> = Arc::new(Mutex::new(Vec::new()));
@@ -367,6 +409,7 @@ fn make_body(b: Body, col: Arc<Mutex<Collected>>) -> impl Fn() + Send + Sync + '
         set_yield(false);
         let dump1 = match &shared {
             Shared::F(e) => format!("{e:?}|{sharedw:?}"),
+            Shared::D(_) if big_shared => String::new(),
             Shared::D(e) => format!("{e:?}|{sharedw:?}"),
         };
         let mut c = col.lock().unwrap();
@@ -401,6 +444,14 @@ fn explore_body(b: &Body, bound: usize, rep: &mut Report) {
     }
     for (sig, what) in &c.bad {
         rep.violations.push(Violation { signature: sig.clone(), what: what.clone(), case: json!({"engine": "c20", "body": b.name, "bound": bound}) });
+    }
+    if let Some(d) = &st.diverged {
+        if c.bad.is_empty() && c.outcomes.len() <= 1 {
+            machinery_failure("C20", &format!("body {} bound {bound}: {d} (uncontrolled nondeterminism, no deviation from the reference observed)", b.name));
+        }
+        // results already deviate from the schedule-independent reference: the executions of this
+        // body are not repeatable because of state the library keeps between calls
+        rep.notes.push(format!("body {} bound {bound}: {d}; exploration of this body stopped after {} schedules (deviations from the reference are reported above)", b.name, st.executions));
     }
     rep.bounds.push(format!(
         "{}: {} threads, preemption bound {bound}: {} schedules ({} with a preemption, up to {} scheduling points, max {} preemptions): complete in {:.1}s",
@@ -564,13 +615,18 @@ pub fn run(tier: Tier) -> i32 {
     let mut work: Vec<(usize, usize)> = Vec::new();
     for (bi, b) in bs.iter().enumerate() {
         // bodies with three threads or very many scheduling points stop one bound earlier
-        let three = b.threads.len() >= 3 || b.name.starts_with("B4");
+        let three = b.threads.len() >= 3 || b.name.starts_with("B4") || b.name.starts_with("B5");
         for bound in 0..=max_b {
             if three && bound > 2 {
                 continue;
             }
             // (three evaluations of three expressions per job: ~400 scheduling points)
             if b.name.starts_with("B4") && bound + 1 > max_b {
+                continue;
+            }
+            // (270 nested evaluations per thread: one preemption anywhere inside the first
+            // evaluation already overlaps the two recursions completely)
+            if b.name.starts_with("B5") && bound + 1 > max_b {
                 continue;
             }
             work.push((bi, bound));
